@@ -1898,6 +1898,10 @@ def concat(bags):
     return Bag(graph, name, len(dsk))
 
 
+def _reify_iterator(seq):
+    return reify(seq) if isinstance(seq, Iterator) else seq
+
+
 def reify(seq):
     if isinstance(seq, Iterator):
         seq = list(seq)
@@ -2303,6 +2307,8 @@ def map_partitions(func, *args, **kwargs):
     """
     name = kwargs.pop("token", None) or funcname(func)
     name = "{}-{}".format(name, tokenize(func, "map-partitions", *args, **kwargs))
+    # A partition can be read by several tasks, it must not be a one-shot iterator
+    func = compose(_reify_iterator, func)
     bags = []
     args2 = []
     dependencies = []
